@@ -1,35 +1,48 @@
 /-
-C08 — property theorems (only). Model: `HydroVerif/Model/C08.lean`; vocabulary and loop invariants:
-`HydroVerif/Lemmas/C08.lean`. Every theorem is followed by an `example` applying it to (or evaluating the model on) a
-concrete non-trivial input over ℚ, so no hypothesis is vacuous. Every model function named below runs in the driver
-and is compared with the real code (`agg`, `aggw`, `homog`, `homogw`, `aggindex`, `m2d` requests of harness/c08.py).
+C08 — property theorems (only). Model: `HydroVerif/Model/C08.lean`; specification vocabulary (Mathlib-free, executed by
+the driver): `HydroVerif/Model/C08Spec.lean`; loop invariants and helper lemmas: `HydroVerif/Lemmas/C08.lean`,
+`C08Buf.lean` (buffers, histories), `C08Cal.lean` (calendar days, daily Series), `C08Round.lean` (rounding).
+Every theorem is followed by an `example` applying it to (or evaluating the model on) a concrete non-trivial input over ℚ
+(or over the round-down arithmetic `Fl floorRounding`), so no hypothesis is vacuous. Every model function AND every
+specification function named below runs in the driver and is compared with the real code (requests `agg`, `aggspec`,
+`aggbuf`, `aggw`, `aggwb`, `aggwf`, `pyxagg`, `homog`, `homogspec`, `homogbuf`, `homogw`, `homogwb`, `pyxhomog`, `hist`,
+`aggindex`, `stampinfo`, `m2d`, `m2ds` of harness/c08.py).
 
-Vocabulary used in the statements (defined in `Lemmas/C08.lean`, independent of the kernels' loops):
+Vocabulary used in the statements (defined in `Model/C08Spec.lean`, independent of the kernels' loops):
 * `keys l`        the distinct index values in order of first appearance (`eraseDups` of the index column);
 * `groupOf l k`   the inputs whose index is `k`, in order (`filter`);
 * `vals g`, `nmiss g`  the non-missing values / the number of missing values of a group;
 * `reduce op maxnan g` `none` (NaN) when `nmiss g > maxnan`, else `red op (vals g)` with
-  `red 0 = sum`, `red 1 = sum / length`, `red 2 = List.maximum`, `red 3 = getLast` (0 for an empty list);
-* `cell maxnan g x`    what flathomogen writes at an entry `x` of group `g`.
-Field theorems hold for every ordered field `α` (ℚ, ℝ, …); `_any_carrier` theorems assume no arithmetic law at all.
+  `red 0 = sumL` (sum from the left), `red 1 = sumL / length`, `red 2 = maxOf`, `red 3 = getLast` (0 for an empty list);
+  over an ordered field `sumL = List.sum` and `maxOf = List.maximum` (`red_sum_spec`, `red_max_spec`, Lemmas `red_eq`);
+* `cell maxnan g x`    what flathomogen writes at an entry `x` of group `g`;
+* `aggregateSpec`, `aggregatePerGroup`, `flathomogenSpec`, `flathomogenPerGroup`  the right-hand sides as functions.
+Field theorems hold for every ordered field `α` (ℚ, ℝ, …); `_any_carrier` theorems assume no arithmetic law at all;
+`_of_add_zero` theorems assume only `x + 0 = x`; `_rounded` / `rounded_*` theorems are over `Fl R`, the representable
+numbers of a monotone idempotent rounding `R.rnd` with `rnd 0 = 0` (`a + b := rnd (a + b)` …) — true of IEEE doubles.
 
 Clause → theorems → what stays outside
 | clause of the property | theorems | outside (trusted / compared only) |
 |---|---|---|
-| non-decreasing index, any input: one value per distinct index value, in order | `aggregate_spec`, `keys_strictly_increasing`, `mem_keys`, `aggregate_length`, `groups_partition`, `aggregate_per_group(_any_carrier)`, `aggregate_ok_iff`; through the wrapper `aggregateW_eq_aggregate`, `aggregateW_spec`, `wrap32_id`; from time stamps `aggIndex_nondecreasing`, `aggregateW_on_time_index` | Cython/ctypes boundary, numpy `astype` (compared bit-exact) |
-| … equal to the sum, mean, maximum or last value of the non-missing inputs of the group | `aggregate_spec` + `red_sum_spec`, `red_mean_spec`, `red_max_spec`, `red_last_spec`; `flush_tail_any_carrier` | IEEE rounding of sum / mean; all-missing groups reduce to 0 (only the sum is constrained there) |
+| non-decreasing index, any input: one value per distinct index value, in order | `aggregate_spec`, `aggregate_spec_of_add_zero`, `aggregate_spec_rounded`, `keys_strictly_increasing`, `mem_keys`, `aggregate_length`, `groups_partition`, `aggregate_per_group(_any_carrier)`, `aggregate_ok_iff`; in the caller's buffers `cAggregate_on_nondecreasing` (`iend` = number of keys, tail untouched); through the wrapper `aggregateW_eq_aggregate`, `aggregateW_spec`, `aggregateWB_eq_aggregateW`, `wrap32_id`; from time stamps `aggIndex_nondecreasing`, `computeAggindex_nondecreasing`, `aggregateW_on_time_index`, `aggregateW_on_compute_aggindex`; float index `aggregateWF_accepts_nondecreasing` | numpy `astype` / Cython buffer acquisition (compared bit-exact) |
+| … equal to the sum, mean, maximum or last value of the non-missing inputs of the group | `aggregate_spec` + `red_sum_spec`, `red_mean_spec`, `red_max_spec`, `red_last_spec`; exact in floating point: `aggregate_spec_max_tail_any_carrier`, `maxOf_spec_linear_order`, `flush_tail_any_carrier`; rounded sum / mean: `rounded_sum_nonneg_dominates`, `rounded_mean_nonneg`, `rounded_sum_mono`, `rounded_sum_exact`, `rounded_sum_error_bound`, `rounded_sum_error_budget` | overflow to ±inf (executed, not modelled); all-missing groups reduce to 0 (only the sum is constrained there) |
 | … or NaN when the group holds more than maxnan missing values; maxnan 0 … beyond the length | `reduce_eq_none_iff`, `flush_isNone_any_carrier`, `aggregate_never_nan_of_maxnan_ge_length`, `aggregate_all_nan_of_negative_maxnan` | — |
 | operators 0..3 | `aggregate_spec`; outside the range: `aggregate_negative_operator_is_sum`, `aggregate_operator_above_3_is_zero`, `wrappers_reject_non_int32_arguments` | codes outside 0..3 accepted by the code, not constrained |
-| flathomogen: non-missing ↦ group mean, missing kept | `flathomogen_spec`, `flathomogen_pointwise`, `flathomogen_per_group_any_carrier`, `flathomogenW_eq_flathomogen`, `flathomogen_ok_iff` | rounding; groups beyond maxnan are all-NaN (text silent) |
-| aggregated sums add up to the sum of the inputs | `aggregate_sum_conserved`, `aggregate_sum_conserved_general`, `aggregate_sum_conserved_of_maxnan_ge` | rounding |
+| flathomogen: non-missing ↦ group mean, missing kept | `flathomogen_spec`, `flathomogen_spec_of_add_zero`, `flathomogen_spec_rounded`, `flathomogen_pointwise`, `flathomogen_per_group_any_carrier`, `flathomogenW_eq_flathomogen`, `flathomogenWB_eq_flathomogenW`, `cFlathomogen_on_nondecreasing`, `flathomogen_ok_iff` | groups beyond maxnan are all-NaN (text silent; counter-`example` after `flatMonth_negative_masked`) |
+| aggregated sums add up to the sum of the inputs | `aggregate_sum_conserved`, `aggregate_sum_conserved_general`, `aggregate_sum_conserved_of_maxnan_ge`; up to rounding `rounded_totals_conserved_within` | overflow |
 | flathomogen preserves each group's total | `flathomogen_group_total` | rounding |
-| monthly2daily (flat or cubic): one value per calendar day, monthly sums = inputs | `m2d_spec`, `m2dFlat_spec`, `flatMonth_spec`, `m2dCubic_spec`, `cubicMonth_spec`; calendar `ndaysAt_range`, `monthAt_zero`, `monthAt_succ`, `days_in_year`, `isLeap_iff` | pandas date arithmetic (compared on every series; oracle uses python `calendar`), `np.dot`/`polyval` rounding |
-| a decreasing index is rejected with an error | `aggregate_rejects_decreasing`, `flathomogen_rejects_decreasing`, `*_ok_iff`, `not_sorted_iff_adjacent_decrease`, `*_rejects_decreasing_any_carrier` | code → ValueError translation (compared) |
-| glue outside the quantifier | `wrappers_reject_length_mismatch`, `kernels_reject_empty`, `wrap32_range`, `parseStep_accepts`, `aggIndex_mono`, `aggIndex_*_eq_iff`, `aggIndex_ASm`, `aggIndex_fits_int32`, `m2d_rejects_other_interpolation` | float index truncation, list / Series / 2-D inputs not modelled |
+| monthly2daily (flat or cubic): one value per calendar day, monthly sums = inputs | per month: `m2d_spec`, `m2dFlat_spec`, `flatMonth_spec`, `m2dCubic_spec`, `cubicMonth_spec`; the returned daily Series with its day stamps: `m2dSeries_eq_stamped`, `m2dSeries_spec`, `daysFrom_covers_months`, `nextDay_spec`; calendar `ndaysAt_range`, `monthAt_zero`, `monthAt_succ`, `days_in_year`, `isLeap_iff`; why non-negative: `flatMonth_negative_masked` | pandas `date_range` / `resample` / `days_in_month` agree with the model's Gregorian calendar (compared stamp by stamp on every series; oracle uses python `calendar`), `np.dot`/`polyval` rounding |
+| a decreasing index is rejected with an error | `aggregate_rejects_decreasing`, `flathomogen_rejects_decreasing`, `*_ok_iff`, `not_sorted_iff_adjacent_decrease`, `*_rejects_decreasing_any_carrier`; in the buffers `cAggregate_on_error`, `cFlathomogen_on_error` (`iend` untouched, tail untouched) | code → ValueError translation (compared) |
+| histories on one set of arrays (the harness's history stream) | `histRun_arguments`, `histRun_answer`, `histStep_rejected_changes_nothing`, `histStep_keeps_earlier_results`, `histRun_call_repeatable` | numpy copies (`astype`, `0.*inputs`) are what makes the model's purity true: compared by replaying whole histories |
+| glue outside the quantifier | `wrappers_reject_length_mismatch`, `kernels_reject_empty`, `pyx_rejects_mismatched_buffers`, `wrap32_range`, `castIdx_mono`, `castIdx_intCast`, `aggregateWF_on_integer_valued_index`, `parseStep_accepts`, `parseStep_ASm_range`, `chrono_iff_pairwise`, `aggIndex_mono`, `aggIndex_*_eq_iff`, `aggIndex_ASm`, `aggIndexRaw_fits_int32`, `aggIndex_fits_int32`, `aggIndex_H_wraps_beyond_2147`, `m2d_rejects_other_interpolation` | list / Series / 2-D inputs (numpy conversion, Cython buffer checks) not modelled; a float index beyond int32 / NaN casts to INT_MIN on x86-64 (modelled as such, platform behaviour) |
 Nothing is left as `_statement` / `_partial`.
 -/
 import HydroVerif.Lemmas.C08
+import HydroVerif.Lemmas.C08Buf
+import HydroVerif.Lemmas.C08Cal
+import HydroVerif.Lemmas.C08Round
 import Mathlib.Algebra.Order.Field.Rat
+import Mathlib.Data.Rat.Floor
 
 namespace HydroVerif.C08
 
@@ -79,7 +92,7 @@ example : (2 : Int) ∈ keys ℓ₀ := (mem_keys ℓ₀ 2).mpr ⟨(2, some 5), b
 theorem red_max_spec (v : List α) (hv : v ≠ []) : red 2 v ∈ v ∧ ∀ x ∈ v, x ≤ red 2 v := by
   obtain ⟨m, hm⟩ := WithBot.ne_bot_iff_exists.mp (List.maximum_ne_bot_of_ne_nil hv)
   have h := List.maximum_eq_coe_iff.mp hm.symm
-  have : red 2 v = m := by simp [red, ← hm]
+  have : red 2 v = m := by simp [red_eq, ← hm]
   rw [this]; exact h
 
 example : red 2 ([-3, -1] : List ℚ) ∈ [-3, -1] ∧ ∀ x ∈ ([-3, -1] : List ℚ), x ≤ red 2 [-3, -1] :=
@@ -87,7 +100,7 @@ example : red 2 ([-3, -1] : List ℚ) ∈ [-3, -1] ∧ ∀ x ∈ ([-3, -1] : Lis
 
 /-- the tail operator's reduction is the last non-missing value -/
 theorem red_last_spec (v : List α) (hv : v ≠ []) : red 3 v = v.getLast hv := by
-  simp [red, List.getLast?_eq_getLast_of_ne_nil hv]
+  simp [red_eq, List.getLast?_eq_getLast_of_ne_nil hv]
 
 example : red 3 ([-3, -1] : List ℚ) = -1 := by rw [red_last_spec _ (by simp)]; rfl
 
@@ -96,12 +109,12 @@ theorem red_mean_spec (v : List α) (hv : v ≠ []) : red 1 v * (v.length : α) 
   have : (v.length : α) ≠ 0 := by
     have : 0 < v.length := List.length_pos_iff.mpr hv
     exact_mod_cast this.ne'
-  simp [red, hv]
+  simp [red_eq, hv]
 
 example : red 1 ([-3, -1] : List ℚ) * (([-3, -1] : List ℚ).length : ℚ) = ([-3, -1] : List ℚ).sum :=
   red_mean_spec _ (by simp)
 
-theorem red_sum_spec (v : List α) : red 0 v = v.sum := by simp [red]
+theorem red_sum_spec (v : List α) : red 0 v = v.sum := by simp [red_eq]
 
 /-! ### aggregate -/
 
@@ -175,7 +188,7 @@ theorem aggregate_negative_operator_is_sum (op maxnan : Int) (hop : op < 0) (l :
   rw [aggregate_per_group, List.map_inj_left.mpr]
   · intro k _
     have h1 : ¬ (op = 1 ∧ 0 < (accOf op (groupOf l k)).nagg) := by omega
-    simp [flush, reduce, red, accOf_nnan, accOf_sum op (by omega), h1]
+    simp [flush, reduce, red_eq, accOf_nnan, accOf_sum op (by omega), h1]
   all_goals assumption
 
 /-- … and a code above 3 returns 0 for every group within the NaN allowance -/
@@ -285,7 +298,7 @@ theorem aggregate_sum_conserved (maxnan : Int) (l : List (Int × Option α)) (ou
     unfold reduce at this ⊢
     split
     · rename_i hlt; simp [hlt] at this
-    · simp [red]
+    · simp [red_eq]
   generalize keys l = ks at hk
   induction ks with
   | nil => simp [vals]
@@ -323,7 +336,7 @@ theorem aggregate_sum_conserved_general (maxnan : Int) (l : List (Int × Option 
     · have : ¬ ((nmiss (groupOf l k) : Int) ≤ maxnan) := by omega
       simp [hk, this]
     · have : ((nmiss (groupOf l k) : Int) ≤ maxnan) := by omega
-      simp [hk, this, red]
+      simp [hk, this, red_eq]
   have hG := congrArg (fun l' : List (Int × Option α) => (l'.filter fun p => P p.1).map Prod.snd) hl
   rw [← hG]
   generalize groupOf l = g at hred
@@ -433,10 +446,10 @@ theorem flathomogen_pointwise (maxnan : Int) (l : List (Int × Option α)) (out 
   intro i hi ho
   simp only [List.getElem_map]
   constructor
-  · intro hx; simp [cell, hx]
+  · intro hx; simp [cell_eq, hx]
   · intro v hx hm
     have : ¬ maxnan < (nmiss (groupOf l l[i].1) : Int) := by omega
-    simp [cell, hx, this]
+    simp [cell_eq, hx, this]
 
 example : ([some (-2), none, some (-2), some 5, none] : List (Option ℚ)).length = (ℓ₀).length :=
   (flathomogen_pointwise 1 ℓ₀ [some (-2), none, some (-2), some 5, none] (by decide +kernel) (by decide +kernel)).1
@@ -484,7 +497,7 @@ theorem flathomogen_group_total (maxnan : Int) (l : List (Int × Option α)) (ou
         | none => none
         | some _ => some ((vals g).sum / ((vals g).length : α)) := by
       funext x
-      cases x <;> simp [cell, hnot]
+      cases x <;> simp [cell_eq, hnot]
     rw [hc, this]
   rw [hv, List.sum_replicate, nsmul_eq_mul]
   by_cases hz : (vals g).length = 0
@@ -622,51 +635,78 @@ example : flush (α := ℚ) 3 1 (accOf 3 [some 4, some 1, none]) = some 1 := by 
 end anyc
 
 /-! ### `compute_aggindex`: the index built from time stamps is non-decreasing and separates the periods -/
-theorem aggIndex_mono (st : Step) (he : ∀ e, st = .ASm e → 1 ≤ e ∧ e ≤ 12) (a b : Stamp)
-    (ha : a.valid) (hb : b.valid) (hab : Stamp.le a b) : aggIndex st a ≤ aggIndex st b := by
-  unfold Stamp.valid at ha hb
-  unfold Stamp.le at hab
-  cases st with
-  | AS => simp only [aggIndex]; omega
-  | ASm e =>
-    have := he e rfl
-    simp only [aggIndex]; omega
-  | MS => simp only [aggIndex]; omega
-  | D => simp only [aggIndex]; omega
-  | H => simp only [aggIndex]; omega
-
-example : aggIndex .H ⟨1999, 12, 31, 23⟩ ≤ aggIndex .H ⟨2000, 1, 1, 0⟩ :=
-  aggIndex_mono .H (by intro e h; cases h) _ _ (by decide) (by decide) (by decide)
-
-theorem aggIndex_AS_eq_iff (a b : Stamp) : aggIndex .AS a = aggIndex .AS b ↔ a.y = b.y := by
-  simp [aggIndex]
-theorem aggIndex_MS_eq_iff (a b : Stamp) (ha : a.valid) (hb : b.valid) :
-    aggIndex .MS a = aggIndex .MS b ↔ a.y = b.y ∧ a.m = b.m := by
-  unfold Stamp.valid at ha hb; simp only [aggIndex]; omega
-theorem aggIndex_D_eq_iff (a b : Stamp) (ha : a.valid) (hb : b.valid) :
-    aggIndex .D a = aggIndex .D b ↔ a.y = b.y ∧ a.m = b.m ∧ a.d = b.d := by
-  unfold Stamp.valid at ha hb; simp only [aggIndex]; omega
-theorem aggIndex_H_eq_iff (a b : Stamp) (ha : a.valid) (hb : b.valid) :
-    aggIndex .H a = aggIndex .H b ↔ a.y = b.y ∧ a.m = b.m ∧ a.d = b.d ∧ a.h = b.h := by
-  unfold Stamp.valid at ha hb; simp only [aggIndex]; omega
-theorem aggIndex_ASm (e : Nat) (he1 : 1 ≤ e) (he12 : e ≤ 12) (a : Stamp) (ha : a.valid) :
-    aggIndex (.ASm e) a = if a.m ≤ e then a.y - 1 else a.y := by
-  unfold Stamp.valid at ha; simp only [aggIndex]; split <;> omega
-
-example : aggIndex (.ASm 7) ⟨1999, 7, 31, 0⟩ = 1998 ∧ aggIndex (.ASm 7) ⟨1999, 8, 1, 0⟩ = 1999 := by decide
-
-theorem aggIndex_fits_int32 (st : Step) (he : ∀ e, st = .ASm e → 1 ≤ e ∧ e ≤ 12) (a : Stamp) (ha : a.valid)
-    (hy : -2147 ≤ a.y ∧ a.y ≤ 2147) : inInt32 (aggIndex st a) = true := by
+/-- the exact index value fits int32 for every valid stamp of a year within ±2147 … -/
+theorem aggIndexRaw_fits_int32 (st : Step) (he : ∀ e, st = .ASm e → 1 ≤ e ∧ e ≤ 12) (a : Stamp) (ha : a.valid)
+    (hy : -2147 ≤ a.y ∧ a.y ≤ 2147) : inInt32 (aggIndexRaw st a) = true := by
   unfold Stamp.valid at ha
   simp only [inInt32, Bool.and_eq_true, decide_eq_true_eq]
   cases st with
-  | AS => simp only [aggIndex]; omega
-  | ASm e => have := he e rfl; simp only [aggIndex]; omega
-  | MS => simp only [aggIndex]; omega
-  | D => simp only [aggIndex]; omega
-  | H => simp only [aggIndex]; omega
+  | AS => simp only [aggIndexRaw]; omega
+  | ASm e => have := he e rfl; simp only [aggIndexRaw]; omega
+  | MS => simp only [aggIndexRaw]; omega
+  | D => simp only [aggIndexRaw]; omega
+  | H => simp only [aggIndexRaw]; omega
 
-example : inInt32 (aggIndex .H ⟨2147, 12, 31, 23⟩) = true ∧ inInt32 (aggIndex .H ⟨2148, 1, 1, 0⟩) = false := by decide
+/-- … so the int32 arithmetic of `compute_aggindex` does not wrap there -/
+theorem aggIndex_fits_int32 (st : Step) (he : ∀ e, st = .ASm e → 1 ≤ e ∧ e ≤ 12) (a : Stamp) (ha : a.valid)
+    (hy : -2147 ≤ a.y ∧ a.y ≤ 2147) : aggIndex st a = aggIndexRaw st a ∧ inInt32 (aggIndex st a) = true := by
+  have h := aggIndexRaw_fits_int32 st he a ha hy
+  have : aggIndex st a = aggIndexRaw st a := wrap32_id _ h
+  exact ⟨this, this ▸ h⟩
+
+example : aggIndex .H ⟨2147, 12, 31, 23⟩ = 2147123123 ∧ inInt32 (aggIndexRaw .H ⟨2148, 1, 1, 0⟩) = false := by decide
+
+/-- the year bound cannot be dropped: the hourly index of 2148 has wrapped, a chronological series crossing from
+2147 into 2148 gets a DECREASING index (which `aggregate` then rejects) -/
+theorem aggIndex_H_wraps_beyond_2147 :
+    Stamp.le ⟨2147, 12, 31, 23⟩ ⟨2148, 1, 1, 0⟩ ∧ aggIndex .H ⟨2148, 1, 1, 0⟩ < aggIndex .H ⟨2147, 12, 31, 23⟩ ∧
+      aggIndex .H ⟨2148, 1, 1, 0⟩ = -2146957196 := by decide
+
+theorem aggIndex_mono (st : Step) (he : ∀ e, st = .ASm e → 1 ≤ e ∧ e ≤ 12) (a b : Stamp)
+    (ha : a.valid) (hb : b.valid) (hya : -2147 ≤ a.y ∧ a.y ≤ 2147) (hyb : -2147 ≤ b.y ∧ b.y ≤ 2147)
+    (hab : Stamp.le a b) : aggIndex st a ≤ aggIndex st b := by
+  rw [(aggIndex_fits_int32 st he a ha hya).1, (aggIndex_fits_int32 st he b hb hyb).1]
+  unfold Stamp.valid at ha hb
+  unfold Stamp.le at hab
+  cases st with
+  | AS => simp only [aggIndexRaw]; omega
+  | ASm e =>
+    have := he e rfl
+    simp only [aggIndexRaw]; omega
+  | MS => simp only [aggIndexRaw]; omega
+  | D => simp only [aggIndexRaw]; omega
+  | H => simp only [aggIndexRaw]; omega
+
+example : aggIndex .H ⟨1999, 12, 31, 23⟩ ≤ aggIndex .H ⟨2000, 1, 1, 0⟩ :=
+  aggIndex_mono .H (by intro e h; cases h) _ _ (by decide) (by decide) (by decide) (by decide) (by decide)
+
+theorem aggIndex_AS_eq_iff (a b : Stamp) (ha : a.valid) (hb : b.valid) (hya : -2147 ≤ a.y ∧ a.y ≤ 2147)
+    (hyb : -2147 ≤ b.y ∧ b.y ≤ 2147) : aggIndex .AS a = aggIndex .AS b ↔ a.y = b.y := by
+  rw [(aggIndex_fits_int32 .AS (by intro e h; cases h) a ha hya).1,
+    (aggIndex_fits_int32 .AS (by intro e h; cases h) b hb hyb).1]
+  simp [aggIndexRaw]
+theorem aggIndex_MS_eq_iff (a b : Stamp) (ha : a.valid) (hb : b.valid) (hya : -2147 ≤ a.y ∧ a.y ≤ 2147)
+    (hyb : -2147 ≤ b.y ∧ b.y ≤ 2147) : aggIndex .MS a = aggIndex .MS b ↔ a.y = b.y ∧ a.m = b.m := by
+  rw [(aggIndex_fits_int32 .MS (by intro e h; cases h) a ha hya).1,
+    (aggIndex_fits_int32 .MS (by intro e h; cases h) b hb hyb).1]
+  unfold Stamp.valid at ha hb; simp only [aggIndexRaw]; omega
+theorem aggIndex_D_eq_iff (a b : Stamp) (ha : a.valid) (hb : b.valid) (hya : -2147 ≤ a.y ∧ a.y ≤ 2147)
+    (hyb : -2147 ≤ b.y ∧ b.y ≤ 2147) : aggIndex .D a = aggIndex .D b ↔ a.y = b.y ∧ a.m = b.m ∧ a.d = b.d := by
+  rw [(aggIndex_fits_int32 .D (by intro e h; cases h) a ha hya).1,
+    (aggIndex_fits_int32 .D (by intro e h; cases h) b hb hyb).1]
+  unfold Stamp.valid at ha hb; simp only [aggIndexRaw]; omega
+theorem aggIndex_H_eq_iff (a b : Stamp) (ha : a.valid) (hb : b.valid) (hya : -2147 ≤ a.y ∧ a.y ≤ 2147)
+    (hyb : -2147 ≤ b.y ∧ b.y ≤ 2147) :
+    aggIndex .H a = aggIndex .H b ↔ a.y = b.y ∧ a.m = b.m ∧ a.d = b.d ∧ a.h = b.h := by
+  rw [(aggIndex_fits_int32 .H (by intro e h; cases h) a ha hya).1,
+    (aggIndex_fits_int32 .H (by intro e h; cases h) b hb hyb).1]
+  unfold Stamp.valid at ha hb; simp only [aggIndexRaw]; omega
+theorem aggIndex_ASm (e : Nat) (he1 : 1 ≤ e) (he12 : e ≤ 12) (a : Stamp) (ha : a.valid)
+    (hya : -2147 ≤ a.y ∧ a.y ≤ 2147) : aggIndex (.ASm e) a = if a.m ≤ e then a.y - 1 else a.y := by
+  rw [(aggIndex_fits_int32 (.ASm e) (by intro e' h; cases h; exact ⟨he1, he12⟩) a ha hya).1]
+  unfold Stamp.valid at ha; simp only [aggIndexRaw]; split <;> omega
+
+example : aggIndex (.ASm 7) ⟨1999, 7, 31, 0⟩ = 1998 ∧ aggIndex (.ASm 7) ⟨1999, 8, 1, 0⟩ = 1999 := by decide
 
 theorem parseStep_accepts :
     parseStep "AS".toList = .ok .AS ∧ parseStep ['M','S'] = .ok .MS ∧ parseStep ['D'] = .ok .D ∧
@@ -679,10 +719,11 @@ theorem parseStep_accepts :
 /-- the index built from chronologically ordered time stamps is non-decreasing: `aggregate` and `flathomogen`
 never reject it -/
 theorem aggIndex_nondecreasing (st : Step) (he : ∀ e, st = .ASm e → 1 ≤ e ∧ e ≤ 12) (ts : List Stamp)
-    (hv : ∀ t ∈ ts, t.valid) (hc : ts.Pairwise Stamp.le) :
+    (hv : ∀ t ∈ ts, t.valid ∧ -2147 ≤ t.y ∧ t.y ≤ 2147) (hc : ts.Pairwise Stamp.le) :
     (ts.map (aggIndex st)).Pairwise (· ≤ ·) := by
   rw [List.pairwise_map]
-  exact hc.imp_of_mem fun ha hb hab => aggIndex_mono st he _ _ (hv _ ha) (hv _ hb) hab
+  exact hc.imp_of_mem fun ha hb hab =>
+    aggIndex_mono st he _ _ (hv _ ha).1 (hv _ hb).1 (hv _ ha).2 (hv _ hb).2 hab
 
 example : ([⟨1999, 12, 31, 23⟩, ⟨2000, 1, 1, 0⟩, ⟨2000, 1, 1, 5⟩, ⟨2000, 2, 29, 0⟩].map (aggIndex .D)).Pairwise (· ≤ ·) :=
   aggIndex_nondecreasing .D (by intro e h; cases h) _ (by decide) (by decide)
@@ -714,10 +755,10 @@ theorem aggregateW_on_time_index (op maxnan : Int) (h0 : 0 ≤ op) (h3 : op ≤ 
         | nil => simp at hlen
         | cons v w => simp
     · rw [List.map_fst_zip (by simp [hlen])]
-      exact aggIndex_nondecreasing st he ts (fun t ht => (hv t ht).1) hc
+      exact aggIndex_nondecreasing st he ts hv hc
   · intro i hi
     obtain ⟨t, ht, rfl⟩ := List.mem_map.mp hi
-    exact aggIndex_fits_int32 st he t (hv t ht).1 (hv t ht).2
+    exact (aggIndex_fits_int32 st he t (hv t ht).1 (hv t ht).2).2
 
 example : aggregateW (α := ℚ) 0 0
     ([⟨1999, 12, 31, 23⟩, ⟨2000, 1, 1, 0⟩, ⟨2000, 1, 1, 5⟩, ⟨2000, 2, 29, 0⟩].map (aggIndex .MS))
@@ -930,6 +971,710 @@ example : m2d (α := ℚ) "linear" 2024 2 0 [some 1] = .error .badInterpolation 
   m2d_rejects_other_interpolation "linear" (by decide) (by decide) _ _ _ _
 
 end m2d
+
+
+/-! ### round 7 — rounding: statements that are true of IEEE doubles -/
+section rounding
+set_option linter.unusedSectionVars false
+variable {β : Type} [Add β] [Div β] [LT β] [DecidableLT β] [OfNat β 0] [NatCast β]
+
+/-- `aggregate_spec` over ANY carrier whose addition satisfies `x + 0 = x` (no other law: not associativity, not
+commutativity, nothing about `/` or `<`): one value per distinct index value, in order, the left-to-right reduction
+`red` of the non-missing values of its group under the NaN policy.  Ordered fields, the rounded arithmetic `Fl R`
+below and IEEE doubles (where `x + 0 = x` for every non-NaN `x` but `-0`, which a running sum started at `+0` never
+holds) are instances; the right-hand side is what the driver evaluates in `Float` (request `aggspec`) -/
+theorem aggregate_spec_of_add_zero (h0 : ∀ x : β, x + 0 = x) (op maxnan : Int) (hop0 : 0 ≤ op) (hop3 : op ≤ 3)
+    (l : List (Int × Option β)) (hne : l ≠ []) (hs : (l.map Prod.fst).Pairwise (· ≤ ·)) :
+    aggregate op maxnan l = .ok (aggregateSpec op maxnan l) := by
+  rw [aggregate_eq_groups op maxnan l hne hs, groups_eq l hs, List.map_map]
+  congr 1
+  apply List.map_congr_left
+  intro k _
+  simp [flush_accOf_of_add_zero h0 op maxnan hop0 hop3]
+
+example : aggregate 1 1 ℓ₀ = .ok (aggregateSpec 1 1 ℓ₀) :=
+  aggregate_spec_of_add_zero (fun x => add_zero x) 1 1 (by norm_num) (by norm_num) ℓ₀ (by simp) (by decide +kernel)
+
+/-- max and tail involve no arithmetic at all: over ANY carrier the kernel returns the specification's `maxOf` /
+last non-missing value of each group (so these two operators are exact in floating point) -/
+theorem aggregate_spec_max_tail_any_carrier (op maxnan : Int) (hop : op = 2 ∨ op = 3)
+    (l : List (Int × Option β)) (hne : l ≠ []) (hs : (l.map Prod.fst).Pairwise (· ≤ ·)) :
+    aggregate op maxnan l = .ok (aggregateSpec op maxnan l) := by
+  rw [aggregate_eq_groups op maxnan l hne hs, groups_eq l hs, List.map_map]
+  congr 1
+  apply List.map_congr_left
+  intro k _
+  exact flush_accOf_max_tail op maxnan hop _
+
+example : aggregate 2 1 ℓ₀ = .ok (aggregateSpec 2 1 ℓ₀) :=
+  aggregate_spec_max_tail_any_carrier 2 1 (Or.inl rfl) ℓ₀ (by simp) (by decide +kernel)
+example : aggregateSpec 2 1 ℓ₀ = [some (-1), some 5] ∧ aggregateSpec 3 1 ℓ₀ = [some (-1), some 5] := by decide +kernel
+
+/-- `flathomogen_spec` over any carrier with `x + 0 = x` -/
+theorem flathomogen_spec_of_add_zero (h0 : ∀ x : β, x + 0 = x) (maxnan : Int) (l : List (Int × Option β))
+    (hne : l ≠ []) (hs : (l.map Prod.fst).Pairwise (· ≤ ·)) :
+    flathomogen maxnan l = .ok (flathomogenSpec maxnan l) := by
+  rw [flathomogen_eq_groups maxnan l hne hs]
+  congr 1
+  have hl := groups_keyed l
+  have hmap := congrArg (List.map fun p : Int × Option β => cell maxnan (groupOf l p.1) p.2) hl
+  unfold flathomogenSpec
+  rw [← hmap, groups_eq l hs]
+  simp only [List.flatMap_map, List.map_flatMap, List.map_map, hcells_eq_of_add_zero h0]
+  rfl
+
+example : flathomogen 1 ℓ₀ = .ok (flathomogenSpec 1 ℓ₀) :=
+  flathomogen_spec_of_add_zero (fun x => add_zero x) 1 ℓ₀ (by simp) (by decide +kernel)
+
+/-- what `maxOf` is, over any linear order (no arithmetic): a member of the list that bounds every member -/
+theorem maxOf_spec_linear_order {γ : Type} [LinearOrder γ] [OfNat γ 0] (v : List γ) (hv : v ≠ []) :
+    maxOf v ∈ v ∧ ∀ x ∈ v, x ≤ maxOf v :=
+  maxOf_mem_and_ge v hv
+
+example : maxOf ([-3, -1, -2] : List ℚ) = -1 := by decide +kernel
+
+end rounding
+
+section rounded
+set_option linter.unusedSectionVars false
+variable {α : Type} [Field α] [LinearOrder α] [IsStrictOrderedRing α] {R : Rounding α}
+
+/-- rounded arithmetic (`a + b := rnd (a + b)`, `a / b := rnd (a / b)`, `(n) := rnd n` for a monotone idempotent rounding
+with `rnd 0 = 0`, e.g. IEEE round-to-nearest without overflow): the kernel is the left-to-right rounded reduction of
+each group — every operator 0..3, every `maxnan` -/
+theorem aggregate_spec_rounded (op maxnan : Int) (hop0 : 0 ≤ op) (hop3 : op ≤ 3) (l : List (Int × Option (Fl R)))
+    (hne : l ≠ []) (hs : (l.map Prod.fst).Pairwise (· ≤ ·)) :
+    aggregate op maxnan l = .ok (aggregateSpec op maxnan l) :=
+  aggregate_spec_of_add_zero Fl.add_zero op maxnan hop0 hop3 l hne hs
+
+/-- … and `flathomogen` writes the rounded group mean -/
+theorem flathomogen_spec_rounded (maxnan : Int) (l : List (Int × Option (Fl R))) (hne : l ≠ [])
+    (hs : (l.map Prod.fst).Pairwise (· ≤ ·)) : flathomogen maxnan l = .ok (flathomogenSpec maxnan l) :=
+  flathomogen_spec_of_add_zero Fl.add_zero maxnan l hne hs
+
+/-- the rounded sum of non-negative values is non-negative and at least every one of them … -/
+theorem rounded_sum_nonneg_dominates (v : List (Fl R)) (hv : ∀ x ∈ v, 0 ≤ x.val) :
+    0 ≤ (red 0 v).val ∧ ∀ x ∈ v, x.val ≤ (red 0 v).val := by
+  simpa [red] using sumL_nonneg_dominates v hv
+
+/-- … so is their rounded mean (what `aggregate` operator 1 and `flathomogen` return) -/
+theorem rounded_mean_nonneg (v : List (Fl R)) (hv : ∀ x ∈ v, 0 ≤ x.val) : 0 ≤ (red 1 v).val := by
+  by_cases he : v = []
+  · subst he; simp [red]
+  · have h1 := (sumL_nonneg_dominates v hv).1
+    have h2 : (0 : α) ≤ R.rnd (v.length : α) := rnd_nonneg (Nat.cast_nonneg _)
+    simp only [red, show (1 : Int) ≠ 0 by decide, if_false, if_true, List.isEmpty_iff, he, Fl.div_val,
+      Fl.natCast_val]
+    exact rnd_nonneg (div_nonneg h1 h2)
+
+/-- the rounded sum is monotone in every term -/
+theorem rounded_sum_mono (v w : List (Fl R)) (h : List.Forall₂ (fun a b => a.val ≤ b.val) v w) :
+    (red 0 v).val ≤ (red 0 w).val := by
+  simpa [red] using sumL_mono v w h
+
+/-- the rounded sum is the exact sum whenever every partial sum is representable (integers below 2^53, dyadic
+values of one scale, one-value groups …) -/
+theorem rounded_sum_exact (v : List (Fl R))
+    (hrep : ∀ n ≤ v.length, R.rnd (((v.take n).map Fl.val).sum) = ((v.take n).map Fl.val).sum) :
+    (red 0 v).val = (v.map Fl.val).sum := by
+  simpa [red] using sumL_exact v hrep
+
+/-- forward error of the rounded sum when `rnd` has relative error `u` (IEEE: `u = 2^-53`, additions never
+underflow): `|fl(Σx) − Σx| ≤ ((1+u)^n − 1)·Σ|x|` -/
+theorem rounded_sum_error_bound (u : α) (hu : 0 ≤ u) (herr : ∀ a, |R.rnd a - a| ≤ u * |a|) (v : List (Fl R)) :
+    |(red 0 v).val - (v.map Fl.val).sum| ≤ ((1 + u) ^ v.length - 1) * (v.map fun x => |x.val|).sum := by
+  simpa [red] using sumL_error_bound u hu herr v
+
+/-- … which is within the correspondence budget `n·2u·Σ|x|` (`n·2^-52·Σ|x|` for doubles) as long as `2nu ≤ 1` -/
+theorem rounded_sum_error_budget (u : α) (hu : 0 ≤ u) (herr : ∀ a, |R.rnd a - a| ≤ u * |a|) (v : List (Fl R))
+    (hn : 2 * (v.length : α) * u ≤ 1) :
+    |(red 0 v).val - (v.map Fl.val).sum| ≤ 2 * (v.length : α) * u * (v.map fun x => |x.val|).sum := by
+  have hA : 0 ≤ (v.map fun x => |x.val|).sum := by
+    apply List.sum_nonneg
+    intro x hx
+    obtain ⟨y, _, rfl⟩ := List.mem_map.mp hx
+    exact abs_nonneg _
+  exact le_trans (rounded_sum_error_bound u hu herr v)
+    (mul_le_mul_of_nonneg_right (pow_one_add_sub_one_le u hu v.length hn) hA)
+
+/-- **totals are conserved up to rounding**: the rounded group sums add up (exactly, as the oracle adds them) to the
+exact total of the inputs within the sum of the per-group error bounds -/
+theorem rounded_totals_conserved_within (u : α) (hu : 0 ≤ u) (herr : ∀ a, |R.rnd a - a| ≤ u * |a|)
+    (gs : List (List (Fl R))) :
+    |(gs.map fun v => (red 0 v).val).sum - (gs.map fun v => (v.map Fl.val).sum).sum| ≤
+      (gs.map fun v => ((1 + u) ^ v.length - 1) * (v.map fun x => |x.val|).sum).sum := by
+  induction gs with
+  | nil => simp
+  | cons v rest ih =>
+    simp only [List.map_cons, List.sum_cons]
+    have h1 := rounded_sum_error_bound u hu herr v
+    have : (red 0 v).val + (rest.map fun v => (red 0 v).val).sum -
+        ((v.map Fl.val).sum + (rest.map fun v => (v.map Fl.val).sum).sum) =
+        ((red 0 v).val - (v.map Fl.val).sum) +
+        ((rest.map fun v => (red 0 v).val).sum - (rest.map fun v => (v.map Fl.val).sum).sum) := by ring
+    rw [this]
+    exact le_trans (abs_add_le _ _) (add_le_add h1 ih)
+
+end rounded
+
+/-- a genuinely lossy rounding for the `example`s: round down to an integer -/
+def floorRounding : Rounding ℚ where
+  rnd := fun a => ((⌊a⌋ : Int) : ℚ)
+  mono := fun a b h => by exact_mod_cast Int.floor_mono h
+  idem := fun a => by simp
+  zero := by simp
+
+/-- the exact "rounding" -/
+def idRounding : Rounding ℚ where
+  rnd := id
+  mono := fun _ _ h => h
+  idem := fun _ => rfl
+  zero := rfl
+
+def flInt (n : Int) : Fl floorRounding := ⟨(n : ℚ), by simp [floorRounding]⟩
+def flQ (q : ℚ) : Fl idRounding := ⟨q, rfl⟩
+
+-- rounded mean of 1, 2 (round down): ⌊3/2⌋ = 1, the field mean is 3/2
+example : (red 1 [flInt 1, flInt 2]).val = 1 ∧ (red 0 [flInt 1, flInt 2]).val = 3 := by decide +kernel
+example : 0 ≤ (red 1 [flInt 1, flInt 2]).val :=
+  rounded_mean_nonneg _ (by intro x hx; simp at hx; rcases hx with rfl | rfl <;> simp [flInt])
+example := rounded_sum_nonneg_dominates [flInt 1, flInt 2]
+  (by intro x hx; simp at hx; rcases hx with rfl | rfl <;> simp [flInt])
+example := rounded_sum_mono [flInt 1, flInt 2] [flInt 1, flInt 5]
+  (by refine .cons ?_ (.cons ?_ .nil) <;> norm_num [flInt])
+example := rounded_sum_exact [flInt 1, flInt (-4), flInt 2] (by
+  intro n hn
+  have : n = 0 ∨ n = 1 ∨ n = 2 ∨ n = 3 := by simp at hn; omega
+  rcases this with rfl | rfl | rfl | rfl <;> decide +kernel)
+example := rounded_sum_error_budget (R := idRounding) (1 / 8) (by norm_num) (by intro a; simp [idRounding])
+  [flQ (1 / 3), flQ (-2), flQ 5] (by norm_num)
+example := rounded_totals_conserved_within (R := idRounding) (1 / 8) (by norm_num) (by intro a; simp [idRounding])
+  [[flQ (1 / 3), flQ (-2)], [flQ 5]]
+example := aggregate_spec_rounded (R := floorRounding) 1 0 (by norm_num) (by norm_num)
+  [(1, some (flInt 1)), (1, some (flInt 2)), (4, some (flInt (-3)))] (by simp) (by simp)
+
+/-! ### round 7 — the kernels at buffer level, the Cython layer, the wrappers written through them -/
+section buffers
+set_option linter.unusedSectionVars false
+variable {β : Type} [Add β] [Div β] [LT β] [DecidableLT β] [OfNat β 0] [NatCast β]
+
+/-- **what `c_aggregate` leaves in the caller's arrays** on a non-decreasing index (any carrier, any operator, any
+previous content of `outputs` / `iend`): return code 0, one value per distinct index value at the head of `outputs`,
+the rest of `outputs` untouched, `iend[0]` = the number of distinct index values -/
+theorem cAggregate_on_nondecreasing (op maxnan : Int) (l : List (Int × Option β)) (hne : l ≠ [])
+    (hs : (l.map Prod.fst).Pairwise (· ≤ ·)) (buf : List (Option β)) (i0 : Int) :
+    cAggregate op maxnan l buf i0 =
+      { ierr := none, outputs := aggregatePerGroup op maxnan l ++ buf.drop (keys l).length,
+        iend := ((keys l).length : Int) } := by
+  have h := aggregate_per_group_any_carrier op maxnan l hne hs
+  have := cAggregate_of_ok op maxnan l buf i0 _ h
+  simpa [aggregatePerGroup] using this
+
+example : cAggregate 0 1 ℓ₀ [some 9, some 9, some 9, some 9, some 9] 77 =
+    { ierr := none, outputs := [some (-4), some 5, some 9, some 9, some 9], iend := 2 } := by decide +kernel
+
+/-- … and on any rejected input: the code of `aggregate`, `iend[0]` untouched, `outputs` untouched beyond the groups
+closed before the error -/
+theorem cAggregate_on_error (op maxnan : Int) (l : List (Int × Option β)) (buf : List (Option β)) (i0 : Int)
+    (e : Err) (h : aggregate op maxnan l = .error e) :
+    (cAggregate op maxnan l buf i0).ierr = some e ∧ (cAggregate op maxnan l buf i0).iend = i0 ∧
+      ∃ w, (cAggregate op maxnan l buf i0).outputs = w ++ buf.drop w.length :=
+  cAggregate_of_error op maxnan l buf i0 e h
+
+example : cAggregate (α := ℚ) 0 0 [(1, some 1), (2, some 2), (1, some 3)] [some 9, some 9, some 9] 77 =
+    { ierr := some .decreasingIndex, outputs := [some 1, some 9, some 9], iend := 77 } := by decide +kernel
+
+/-- `c_flathomogen` at buffer level: every position of `outputs` is overwritten on success (any carrier) … -/
+theorem cFlathomogen_on_nondecreasing (maxnan : Int) (l : List (Int × Option β)) (hne : l ≠ [])
+    (hs : (l.map Prod.fst).Pairwise (· ≤ ·)) (buf : List (Option β)) (hb : buf.length = l.length) :
+    cFlathomogen maxnan l buf = (none, flathomogenPerGroup maxnan l) := by
+  have h := flathomogen_per_group_any_carrier maxnan l hne hs
+  have hlen := flathomogen_length maxnan l _ h
+  have := cFlathomogen_of_ok maxnan l buf _ h
+  rw [this, List.drop_of_length_le (by omega)]
+  simp [flathomogenPerGroup]
+
+/-- … and untouched beyond the groups closed before a decrease -/
+theorem cFlathomogen_on_error (maxnan : Int) (l : List (Int × Option β)) (buf : List (Option β))
+    (e : Err) (h : flathomogen maxnan l = .error e) :
+    (cFlathomogen maxnan l buf).1 = some e ∧ ∃ w, (cFlathomogen maxnan l buf).2 = w ++ buf.drop w.length :=
+  cFlathomogen_of_error maxnan l buf e h
+
+example : cFlathomogen (α := ℚ) 0 [(1, some 1), (2, some 2), (2, some 4), (1, some 3)] [some 9, some 9, some 9, some 9] =
+    (some .decreasingIndex, [some 1, some 9, some 9, some 9]) := by decide +kernel
+example : cFlathomogen 1 ℓ₀ [none, none, none, none, none] = (none, flathomogenPerGroup 1 ℓ₀) :=
+  cFlathomogen_on_nondecreasing 1 ℓ₀ (by simp) (by decide +kernel) _ rfl
+
+/-- the Cython layer rejects buffers of unequal lengths before the kernel can index past their end -/
+theorem pyx_rejects_mismatched_buffers (op maxnan : Int) (hop : inInt32 op = true) (hmx : inInt32 maxnan = true)
+    (idx : List Int) (vals buf : List (Option β)) (iend : List Int)
+    (h : idx.length ≠ vals.length ∨ idx.length ≠ buf.length ∨ iend.length ≠ 1) :
+    pyxAggregate op maxnan idx vals buf iend = .error .assertFailed ∧
+    (idx.length ≠ vals.length ∨ idx.length ≠ buf.length →
+      pyxFlathomogen maxnan idx vals buf = .error .assertFailed) := by
+  constructor
+  · simp [pyxAggregate, hop, hmx, h]
+  · intro h'
+    simp [pyxFlathomogen, hmx, h']
+
+example : pyxAggregate (α := ℚ) 0 0 [1, 2] [some 1, some 2] [some 0] [0] = .error .assertFailed := by decide +kernel
+
+variable [Mul β]
+
+/-- **`dutils.aggregate` line by line** (`outputs = 0.*inputs`, `iend = [0]`, the Cython call on these buffers,
+`ierr > 0` → ValueError, `outputs[:iend[0]]`) returns exactly what the kernel model `aggregateW` returns — for every
+argument, accepted or not: the truncation keeps the results and nothing of the scratch buffer -/
+theorem aggregateWB_eq_aggregateW (op maxnan : Int) (idx : List Int) (vals : List (Option β)) :
+    aggregateWB op maxnan idx vals = aggregateW op maxnan idx vals := by
+  unfold aggregateWB aggregateW
+  by_cases hlen : idx.length ≠ vals.length
+  · rw [if_pos hlen, if_pos hlen]
+  rw [if_neg hlen, if_neg hlen]
+  by_cases hov : (!(inInt32 op) || !(inInt32 maxnan)) = true
+  · rw [if_pos hov, if_pos hov]
+  rw [if_neg hov, if_neg hov]
+  have hlen' : idx.length = vals.length := not_not.mp hlen
+  have hg : ¬ ((idx.map wrap32).length ≠ vals.length ∨ (idx.map wrap32).length ≠ (vals.map zeroTimes).length ∨
+      ([0] : List Int).length ≠ 1) := by simp [hlen']
+  simp only [pyxAggregate, if_neg hov, if_neg hg]
+  cases h : aggregate op maxnan ((idx.map wrap32).zip vals) with
+  | ok out =>
+    rw [cAggregate_of_ok _ _ _ _ _ _ h]
+    simp
+  | error e =>
+    obtain ⟨h1, _, _⟩ := cAggregate_of_error op maxnan _ (vals.map zeroTimes) (([0] : List Int).headD 0) e h
+    generalize cAggregate op maxnan ((idx.map wrap32).zip vals) (vals.map zeroTimes) (([0] : List Int).headD 0) = k at h1
+    obtain ⟨ie, o, ien⟩ := k
+    simp only at h1
+    subst h1
+    rfl
+
+/-- the same for `dutils.flathomogen` -/
+theorem flathomogenWB_eq_flathomogenW (maxnan : Int) (idx : List Int) (vals : List (Option β)) :
+    flathomogenWB maxnan idx vals = flathomogenW maxnan idx vals := by
+  unfold flathomogenWB flathomogenW
+  by_cases hlen : idx.length ≠ vals.length
+  · rw [if_pos hlen, if_pos hlen]
+  rw [if_neg hlen, if_neg hlen]
+  by_cases hov : (!(inInt32 maxnan)) = true
+  · rw [if_pos hov, if_pos hov]
+  rw [if_neg hov, if_neg hov]
+  have hlen' : idx.length = vals.length := not_not.mp hlen
+  have hg : ¬ ((idx.map wrap32).length ≠ vals.length ∨ (idx.map wrap32).length ≠ (vals.map zeroTimes).length) := by
+    simp [hlen']
+  simp only [pyxFlathomogen, if_neg hov, if_neg hg]
+  cases h : flathomogen maxnan ((idx.map wrap32).zip vals) with
+  | ok out =>
+    have hl := flathomogen_length maxnan _ _ h
+    rw [cFlathomogen_of_ok _ _ _ _ h, List.drop_of_length_le (by simp [hl, hlen'])]
+    simp
+  | error e =>
+    obtain ⟨h1, _⟩ := cFlathomogen_of_error maxnan _ (vals.map zeroTimes) e h
+    generalize cFlathomogen maxnan ((idx.map wrap32).zip vals) (vals.map zeroTimes) = k at h1
+    obtain ⟨ie, o⟩ := k
+    simp only at h1
+    subst h1
+    rfl
+
+example : aggregateWB (α := ℚ) 2 1 [3, 3, 4] [some (-3), none, some 7] = .ok [some (-3), some 7] := by decide +kernel
+example : flathomogenWB (α := ℚ) 1 [3, 3, 4] [some 1, none, some 7] = .ok [some 1, none, some 7] := by decide +kernel
+example : aggregateWB (α := ℚ) 0 0 [3, 2] [some 1, some 7] = .error .decreasingIndex := by decide +kernel
+
+end buffers
+
+/-! ### round 7 — histories on one set of arrays (any carrier): in-place edits of the arguments and of returned arrays,
+calls of either function with any arguments, accepted or rejected, in any order -/
+section histories
+set_option linter.unusedSectionVars false
+variable {β : Type} [Add β] [Div β] [LT β] [DecidableLT β] [OfNat β 0] [NatCast β]
+
+/-- the arguments after ANY history are what the caller's own assignments made them: no call, accepted or rejected,
+and no edit of a returned array ever writes `aggindex` or `inputs` -/
+theorem histRun_arguments (s : Hist β) (ops : List (HOp β)) :
+    (histRun s ops).1.idx = ops.foldl (fun a o => match o with | .setIdx i k => a.set i k | _ => a) s.idx ∧
+    (histRun s ops).1.vals = ops.foldl (fun a o => match o with | .setVal i v => a.set i v | _ => a) s.vals := by
+  induction ops generalizing s with
+  | nil => exact ⟨rfl, rfl⟩
+  | cons o rest ih =>
+    obtain ⟨h1, h2⟩ := histStep_args s o
+    obtain ⟨i1, i2⟩ := ih (histStep s o).1
+    simp only [histRun, List.foldl_cons]
+    rw [i1, i2, h1, h2]
+    exact ⟨rfl, rfl⟩
+
+/-- every answer in a history is the wrapper applied to the arrays as they are at the moment of the call — nothing
+of the earlier calls, their operators, their results or their failures is remembered -/
+theorem histRun_answer (s : Hist β) (pre : List (HOp β)) :
+    (∀ op maxnan, (histRun s (pre ++ [.callAgg op maxnan])).2 =
+      (histRun s pre).2 ++ [aggregateW op maxnan (histRun s pre).1.idx (histRun s pre).1.vals]) ∧
+    (∀ maxnan, (histRun s (pre ++ [.callHomog maxnan])).2 =
+      (histRun s pre).2 ++ [flathomogenW maxnan (histRun s pre).1.idx (histRun s pre).1.vals]) := by
+  constructor
+  · intro op maxnan
+    rw [histRun_append]
+    simp only [histRun, histStep]
+    cases aggregateW op maxnan (histRun s pre).1.idx (histRun s pre).1.vals <;> rfl
+  · intro maxnan
+    rw [histRun_append]
+    simp only [histRun, histStep]
+    cases flathomogenW maxnan (histRun s pre).1.idx (histRun s pre).1.vals <;> rfl
+
+/-- a rejected call (decreasing index, length mismatch, scalar overflow) leaves the whole state as it was … -/
+theorem histStep_rejected_changes_nothing (s : Hist β) (o : HOp β) (e : Err)
+    (h : (histStep s o).2 = some (.error e)) : (histStep s o).1 = s := by
+  cases o with
+  | setVal i v => simp [histStep] at h
+  | setIdx i k => simp [histStep] at h
+  | scribble r v => simp [histStep] at h
+  | callAgg op maxnan =>
+    simp only [histStep] at h ⊢
+    cases h' : aggregateW op maxnan s.idx s.vals with
+    | ok out => rw [h'] at h; simp at h
+    | error e' => rfl
+  | callHomog maxnan =>
+    simp only [histStep] at h ⊢
+    cases h' : flathomogenW maxnan s.idx s.vals with
+    | ok out => rw [h'] at h; simp at h
+    | error e' => rfl
+
+/-- … and no operation but the caller's own overwrite changes an array handed out earlier: an accepted call appends
+its fresh result, everything else keeps the list of results -/
+theorem histStep_keeps_earlier_results (s : Hist β) (o : HOp β) (ho : ∀ r v, o ≠ .scribble r v) :
+    s.outs <+: (histStep s o).1.outs := by
+  cases o with
+  | setVal i v => exact List.prefix_refl _
+  | setIdx i k => exact List.prefix_refl _
+  | scribble r v => exact absurd rfl (ho r v)
+  | callAgg op maxnan =>
+    simp only [histStep]
+    cases aggregateW op maxnan s.idx s.vals with
+    | ok out => exact List.prefix_append _ _
+    | error e => exact List.prefix_refl _
+  | callHomog maxnan =>
+    simp only [histStep]
+    cases flathomogenW maxnan s.idx s.vals with
+    | ok out => exact List.prefix_append _ _
+    | error e => exact List.prefix_refl _
+
+/-- the same call twice in a row gives the same answer twice -/
+theorem histRun_call_repeatable (s : Hist β) (pre : List (HOp β)) (op maxnan : Int) :
+    ∃ a, (histRun s (pre ++ [.callAgg op maxnan, .callAgg op maxnan])).2 = (histRun s pre).2 ++ [a, a] := by
+  have happ : pre ++ [HOp.callAgg op maxnan, HOp.callAgg op maxnan] =
+      (pre ++ [HOp.callAgg (α := β) op maxnan]) ++ [HOp.callAgg op maxnan] := by simp
+  have h1 := (histRun_answer s (pre ++ [HOp.callAgg (α := β) op maxnan])).1 op maxnan
+  have h2 := (histRun_answer s pre).1 op maxnan
+  rw [happ, h1, h2]
+  have hargs := histRun_arguments s (pre ++ [HOp.callAgg (α := β) op maxnan])
+  have hargs0 := histRun_arguments s pre
+  simp only [List.foldl_append, List.foldl_cons, List.foldl_nil] at hargs
+  rw [hargs.1, hargs.2, ← hargs0.1, ← hargs0.2]
+  exact ⟨aggregateW op maxnan (histRun s pre).1.idx (histRun s pre).1.vals, by simp⟩
+
+-- a history over ℚ: call, overwrite the result, edit an input, make the index decrease (rejected), repair it, call again
+example : (histRun (α := ℚ) ⟨[1, 1, 2], [some 1, some 2, some 4], []⟩
+    [.callAgg 0 0, .scribble 0 (some (-7)), .setVal 0 (some 10), .callHomog 0, .setIdx 2 0, .callAgg 2 0,
+     .setIdx 2 5, .callAgg 2 0]) =
+    (⟨[1, 1, 5], [some 10, some 2, some 4], [[some (-7), some (-7)], [some 6, some 6, some 4], [some 10, some 4]]⟩,
+     [.ok [some 3, some 4], .ok [some 6, some 6, some 4], .error .decreasingIndex, .ok [some 10, some 4]]) := by
+  decide +kernel
+
+end histories
+
+/-! ### round 7 — a floating-point aggregation index (`astype(np.int32)` truncates toward zero) -/
+section floatindex
+set_option linter.unusedSectionVars false
+variable {β : Type} [Add β] [Div β] [LT β] [DecidableLT β] [OfNat β 0] [NatCast β]
+
+/-- the C cast is monotone on the values whose integer part fits int32 … -/
+theorem castIdx_mono (p q : Rat) (h : p ≤ q) (hp : inInt32 (truncQ p) = true) (hq : inInt32 (truncQ q) = true) :
+    castIdx (some p) ≤ castIdx (some q) := by
+  simp only [castIdx, hp, hq, if_true]
+  exact truncQ_mono p q h
+
+/-- … and the identity on integer-valued floats -/
+theorem castIdx_intCast (n : Int) (hn : inInt32 n = true) : castIdx (some (n : Rat)) = n := by
+  simp [castIdx, truncQ_intCast, hn]
+
+example : castIdx (some (19 / 10)) = 1 ∧ castIdx (some (-1 / 2)) = 0 ∧ castIdx (some (-3 / 2)) = -1 ∧
+    castIdx (some 3000000000) = -2147483648 ∧ castIdx none = -2147483648 := by decide +kernel
+
+/-- **a non-decreasing float64 index is never rejected** (values whose integer part fits int32; it is aggregated by
+integer part, so that all of (-1, 1) is one group) -/
+theorem aggregateWF_accepts_nondecreasing (op maxnan : Int) (hop : inInt32 op = true) (hmx : inInt32 maxnan = true)
+    (idx : List Rat) (vals : List (Option β)) (hlen : idx.length = vals.length) (hne : idx ≠ [])
+    (hr : ∀ q ∈ idx, inInt32 (truncQ q) = true) (hs : idx.Pairwise (· ≤ ·)) :
+    aggregateWF op maxnan (idx.map some) vals =
+      .ok (aggregatePerGroup op maxnan ((idx.map truncQ).zip vals)) := by
+  have hcast : (idx.map some).map castIdx = idx.map truncQ := by
+    rw [List.map_map]
+    apply List.map_congr_left
+    intro q hq
+    simp [castIdx, hr q hq]
+  have hlen' : ¬ (idx.map some).length ≠ vals.length := by simpa using hlen
+  simp only [aggregateWF, if_neg hlen', hop, hmx, Bool.not_true, Bool.or_self, Bool.false_eq_true, if_false, hcast]
+  apply aggregate_per_group_any_carrier
+  · cases idx with
+    | nil => exact absurd rfl hne
+    | cons a r => cases vals with
+      | nil => simp at hlen
+      | cons v w => simp
+  · rw [List.map_fst_zip (by simp [hlen]), List.pairwise_map]
+    exact hs.imp fun hab => truncQ_mono _ _ hab
+
+example : aggregateWF (α := ℚ) 0 0 [some (-1 / 2), some (1 / 2), some (19 / 10), some 2] [some 1, some 2, some 4, some 8] =
+    .ok [some 3, some 4, some 8] := by decide +kernel
+
+/-- an integer-valued float index in int32 behaves as the integer index -/
+theorem aggregateWF_on_integer_valued_index (op maxnan : Int) (idx : List Int) (vals : List (Option β))
+    (hidx : ∀ i ∈ idx, inInt32 i = true) :
+    aggregateWF op maxnan (idx.map fun i : Int => some (Int.cast i : Rat)) vals = aggregateW op maxnan idx vals := by
+  have h1 : (idx.map fun i : Int => some (Int.cast i : Rat)).map castIdx = idx := by
+    rw [List.map_map]
+    conv_rhs => rw [← List.map_id idx]
+    apply List.map_congr_left
+    intro i hi
+    simp [castIdx_intCast i (hidx i hi)]
+  have h2 : idx.map wrap32 = idx := by
+    conv_rhs => rw [← List.map_id idx]
+    apply List.map_congr_left
+    intro i hi
+    exact wrap32_id i (hidx i hi)
+  simp [aggregateWF, aggregateW, h1, h2]
+
+example := aggregateWF_on_integer_valued_index (β := ℚ) 2 0 [3, 3, 4] [some 1, some 5, some 2] (by decide)
+
+end floatindex
+
+/-! ### round 7 — `compute_aggindex` through its entry point: the `AS-MMM` hypothesis discharged from the parser -/
+
+/-- the month position an accepted `AS-MMM` time step carries is 1..12 (the hypothesis `he` of the `aggIndex_*`
+theorems follows from the code's own `assert mth in allowed`) -/
+theorem parseStep_ASm_range (s : List Char) (e : Nat) (h : parseStep s = .ok (.ASm e)) : 1 ≤ e ∧ e ≤ 12 := by
+  unfold parseStep at h
+  split at h <;> try (cases h)
+  split at h
+  · rename_i i hi
+    cases h
+    obtain ⟨hlt, _⟩ := List.idxOf?_eq_some_iff.mp hi
+    have : monthAbbr.length = 12 := rfl
+    omega
+  · cases h
+
+example : parseStep "AS-JUL".toList = .ok (.ASm 7) := by decide
+
+/-- chronological order checked stamp against next stamp is chronological order of every pair -/
+theorem chrono_iff_pairwise (ts : List Stamp) : chrono ts = true ↔ ts.Pairwise Stamp.le := by
+  have trans : ∀ a b c : Stamp, Stamp.le a b → Stamp.le b c → Stamp.le a c := by
+    intro a b c hab hbc
+    unfold Stamp.le at *
+    omega
+  induction ts with
+  | nil => simp [chrono]
+  | cons a tl ih =>
+    cases tl with
+    | nil => simp [chrono]
+    | cons b r =>
+      simp only [chrono, Bool.and_eq_true, decide_eq_true_eq, ih, List.pairwise_cons]
+      constructor
+      · rintro ⟨hab, hb, hr⟩
+        refine ⟨?_, hb, hr⟩
+        intro c hc
+        rcases List.mem_cons.mp hc with rfl | hc
+        · exact hab
+        · exact trans a b c hab (hb c hc)
+      · rintro ⟨ha, hb, hr⟩
+        exact ⟨ha b (List.mem_cons_self ..), hb, hr⟩
+
+example : chrono [⟨1999, 12, 31, 23⟩, ⟨2000, 1, 1, 0⟩, ⟨2000, 1, 1, 0⟩] = true ∧
+    chrono [⟨2000, 1, 1, 0⟩, ⟨1999, 12, 31, 23⟩] = false := by decide
+
+/-- **`compute_aggindex` never produces an index that `aggregate` rejects**: whatever time step it accepts,
+chronological valid time stamps of years within ±2147 are mapped to a non-decreasing index (no side condition on the time
+step left; beyond 2147 the hourly index wraps: `aggIndex_H_wraps_beyond_2147`) -/
+theorem computeAggindex_nondecreasing (timestep : List Char) (ts : List Stamp) (idx : List Int)
+    (h : computeAggindex timestep ts = .ok idx) (hv : ∀ t ∈ ts, t.valid ∧ -2147 ≤ t.y ∧ t.y ≤ 2147)
+    (hc : chrono ts = true) : idx.Pairwise (· ≤ ·) := by
+  unfold computeAggindex at h
+  split at h
+  · cases h
+  · rename_i st hst
+    cases h
+    exact aggIndex_nondecreasing st (fun e he => parseStep_ASm_range timestep e (he ▸ hst)) ts hv
+      ((chrono_iff_pairwise ts).mp hc)
+
+example : computeAggindex "AS-JUL".toList [⟨1999, 7, 31, 0⟩, ⟨1999, 8, 1, 0⟩] = .ok [1998, 1999] := by decide
+example := computeAggindex_nondecreasing "AS-JUL".toList [⟨1999, 7, 31, 0⟩, ⟨1999, 8, 1, 0⟩] [1998, 1999]
+  (by decide) (by decide) (by decide)
+
+section chain2
+set_option linter.unusedSectionVars false
+variable {α : Type} [Field α] [LinearOrder α] [IsStrictOrderedRing α]
+
+/-- end to end from the time-step STRING: `aggregate(compute_aggindex(time, timestep), inputs, operator, maxnan)` on
+chronological stamps of years within ±2147 is the per-period reduction (no hypothesis on the parsed step) -/
+theorem aggregateW_on_compute_aggindex (op maxnan : Int) (h0 : 0 ≤ op) (h3 : op ≤ 3) (hmx : inInt32 maxnan = true)
+    (timestep : List Char) (ts : List Stamp) (idx : List Int) (h : computeAggindex timestep ts = .ok idx)
+    (vals : List (Option α)) (hlen : ts.length = vals.length) (hne : ts ≠ [])
+    (hv : ∀ t ∈ ts, t.valid ∧ -2147 ≤ t.y ∧ t.y ≤ 2147) (hc : chrono ts = true) :
+    aggregateW op maxnan idx vals = .ok (aggregateSpec op maxnan (idx.zip vals)) := by
+  unfold computeAggindex at h
+  split at h
+  · cases h
+  · rename_i st hst
+    cases h
+    exact aggregateW_on_time_index op maxnan h0 h3 hmx st
+      (fun e he => parseStep_ASm_range timestep e (he ▸ hst)) ts vals hlen hne hv ((chrono_iff_pairwise ts).mp hc)
+
+example := aggregateW_on_compute_aggindex (α := ℚ) 1 0 (by norm_num) (by norm_num) (by decide) "MS".toList
+  [⟨1999, 12, 31, 23⟩, ⟨2000, 1, 1, 0⟩, ⟨2000, 1, 1, 5⟩] [199912, 200001, 200001] (by decide)
+  [some 1, some 2, some 4] rfl (by simp) (by decide) (by decide)
+
+end chain2
+
+/-! ### round 7 — monthly2daily as the daily Series it returns: values WITH their calendar-day stamps -/
+
+/-- the day after a calendar day is a calendar day: the next day of the month, or the 1st of the next month
+(January of the next year after December) -/
+theorem nextDay_spec (t : Date) (hm1 : 1 ≤ t.m) (hm12 : t.m ≤ 12) :
+    (1 ≤ (nextDay t).m ∧ (nextDay t).m ≤ 12 ∧ 1 ≤ (nextDay t).d ∧
+      (nextDay t).d ≤ daysInMonth (nextDay t).y (nextDay t).m) ∧
+    (if t.d < daysInMonth t.y t.m then nextDay t = { y := t.y, m := t.m, d := t.d + 1 }
+     else if t.m < 12 then nextDay t = { y := t.y, m := t.m + 1, d := 1 }
+     else nextDay t = { y := t.y + 1, m := 1, d := 1 }) := by
+  unfold nextDay
+  split
+  · simp; omega
+  · split
+    · have := daysInMonth_range t.y (t.m + 1) (by omega) (by omega)
+      simp; omega
+    · have := daysInMonth_range (t.y + 1) 1 (by omega) (by omega)
+      simp; omega
+
+example : nextDay ⟨2024, 2, 28⟩ = ⟨2024, 2, 29⟩ ∧ nextDay ⟨2023, 2, 28⟩ = ⟨2023, 3, 1⟩ ∧
+    nextDay ⟨1999, 12, 31⟩ = ⟨2000, 1, 1⟩ := by decide
+
+/-- **consecutive days are the calendar days of consecutive months**: the `date_range` of the total length of `k`
+months from the 1st of the starting month is, month after month, day 1 … `daysInMonth` of each month of the series -/
+theorem daysFrom_covers_months (y0 : Int) (m0 : Nat) (h1 : 1 ≤ m0) (h12 : m0 ≤ 12) (k : Nat) :
+    daysFrom { y := y0, m := m0, d := 1 } (monthLengths y0 m0 k).sum =
+      (List.range k).flatMap fun j => monthDays (monthAt y0 m0 j).1 (monthAt y0 m0 j).2 := by
+  have := daysFrom_months y0 m0 h1 h12 k 0
+  simpa [daysFrom] using this
+
+example : daysFrom ⟨2024, 2, 1⟩ (29 + 31) = monthDays 2024 2 ++ monthDays 2024 3 := by decide +kernel
+example : (monthLengths 2024 2 2).sum = 60 := by decide
+
+section series
+set_option linter.unusedSectionVars false
+variable {α : Type} [Field α] [LinearOrder α] [IsStrictOrderedRing α]
+
+/-- the daily Series `monthly2daily` returns (flat: fictive month, `resample("D").ffill()`, division by the
+`days_in_month` of every DAY's own stamp, threshold mask, last day dropped; cubic: 31-column grid, columns beyond the
+month blanked, NaN filter, `date_range` of the number of values that are left) is, for EVERY input — missing months and
+thresholds included — the per-month lists of `m2d` stamped with the calendar days of their months -/
+theorem m2dSeries_eq_stamped (isnan : α → Bool) (hnan : ∀ x, isnan x = false) (interp : String) (y0 : Int)
+    (m0 : Nat) (minthr : α) (vs : List (Option α)) :
+    m2dSeries isnan interp y0 m0 minthr vs =
+      match m2d interp y0 m0 minthr vs with
+      | .ok months => .ok (stampMonths y0 m0 months)
+      | .error e => .error e := by
+  unfold m2dSeries m2d
+  by_cases hf : interp = "flat"
+  · rw [if_pos hf, if_pos hf]
+    exact m2dFlatSeries_eq y0 m0 minthr vs
+  rw [if_neg hf, if_neg hf]
+  by_cases hc : interp = "cubic"
+  · rw [if_pos hc, if_pos hc, m2dCubicSeries_eq isnan hnan y0 m0 minthr vs]
+    cases m2dCubic y0 m0 minthr vs with
+    | error e => rfl
+    | ok ms =>
+      simp only [stampMonths, List.length_map, List.map_flatMap]
+      congr 1
+      apply List.flatMap_congr
+      intro j hj
+      have hj' : j < ms.length := List.mem_range.mp hj
+      simp [List.getD_eq_getElem?_getD, List.getElem?_eq_getElem hj', List.zip_map_right]
+  · rw [if_neg hc, if_neg hc]
+
+/-- **monthly2daily returns one value per calendar day whose sum over each month is the monthly input**, at the
+level of the returned Series: for a complete non-negative month-start series (flat or cubic) the stamps are every
+calendar day of the covered months, once, in order; no value is missing; and the values stamped with the days of
+month `j` add up to the `j`-th monthly input -/
+theorem m2dSeries_spec (isnan : α → Bool) (hnan : ∀ x, isnan x = false) (interp : String)
+    (hi : interp = "flat" ∨ interp = "cubic") (y0 : Int) (m0 : Nat) (h1 : 1 ≤ m0) (h12 : m0 ≤ 12) (ys : List α)
+    (hne : ys ≠ []) (hpos : ∀ y ∈ ys, 0 ≤ y) :
+    ∃ out, m2dSeries isnan interp y0 m0 0 (ys.map some) = .ok out ∧
+      out.map Prod.fst = daysFrom { y := y0, m := m0, d := 1 } (monthLengths y0 m0 ys.length).sum ∧
+      (∀ p ∈ out, p.2 ≠ none) ∧
+      ∀ (j : Nat) (hj : j < ys.length),
+        (vals ((out.filter fun p => monthIndex y0 m0 p.1 == (j : Int)).map Prod.snd)).sum = ys[j] := by
+  obtain ⟨months, hrun, hlen, hmon⟩ := m2d_spec interp hi y0 m0 h1 h12 ys hne hpos
+  have hser := m2dSeries_eq_stamped isnan hnan interp y0 m0 (0 : α) (ys.map some)
+  rw [hrun] at hser
+  refine ⟨_, hser, ?_, ?_, ?_⟩
+  · -- stamps
+    rw [daysFrom_covers_months y0 m0 h1 h12, stampMonths, hlen, List.map_flatMap]
+    apply List.flatMap_congr
+    intro j hj
+    have hj' : j < ys.length := List.mem_range.mp hj
+    have hj2 : j < months.length := by omega
+    rw [List.getD_eq_getElem?_getD, List.getElem?_eq_getElem hj2, Option.getD_some]
+    apply List.map_fst_zip
+    rw [monthDays_length, (hmon j hj' hj2).1, ndaysAt]
+  · -- nothing missing
+    intro p hp
+    rw [stampMonths] at hp
+    obtain ⟨j, hj, hpj⟩ := List.mem_flatMap.mp hp
+    have hj2 : j < months.length := List.mem_range.mp hj
+    rw [List.getD_eq_getElem?_getD, List.getElem?_eq_getElem hj2, Option.getD_some] at hpj
+    exact (hmon j (by omega) hj2).2.1 p.2 (List.of_mem_zip hpj).2
+  · -- monthly sums
+    intro j hj
+    have hj2 : j < months.length := by omega
+    have hblock := filter_flatMap_block
+      (fun i => (monthDays (monthAt y0 m0 i).1 (monthAt y0 m0 i).2).zip (months.getD i []))
+      (fun p => (monthIndex y0 m0 p.1).toNat) months.length j hj2 (by
+        intro i _ b hb
+        have := monthIndex_monthAt y0 m0 h1 h12 i b.1 (List.of_mem_zip hb).1
+        simp [this])
+    have hfil : ((stampMonths y0 m0 months).filter fun p => monthIndex y0 m0 p.1 == (j : Int)) =
+        (stampMonths y0 m0 months).filter fun p => (monthIndex y0 m0 p.1).toNat == j := by
+      apply List.filter_congr
+      intro p hp
+      rw [stampMonths] at hp
+      obtain ⟨i, _, hpi⟩ := List.mem_flatMap.mp hp
+      have := monthIndex_monthAt y0 m0 h1 h12 i p.1 (List.of_mem_zip hpi).1
+      simp [this]
+    rw [hfil]
+    unfold stampMonths
+    rw [hblock, List.getD_eq_getElem?_getD, List.getElem?_eq_getElem hj2, Option.getD_some,
+      List.map_snd_zip (by rw [monthDays_length, (hmon j hj hj2).1, ndaysAt])]
+    exact (hmon j hj hj2).2.2
+
+example := m2dSeries_spec (α := ℚ) (fun _ => false) (fun _ => rfl) "cubic" (Or.inr rfl) 2024 2 (by norm_num)
+  (by norm_num) [29, 62] (by simp) (by decide +kernel)
+example : (match m2dSeries (α := ℚ) (fun _ => false) "flat" 2023 2 0 [some 28, some 62] with
+    | .ok out => out.map fun p => (p.1.m, p.1.d, p.2)
+    | .error _ => []) =
+    ((List.range 28).map fun d => (2, d + 1, some 1)) ++ ((List.range 31).map fun d => (3, d + 1, some 2)) := by
+  decide +kernel
+
+/-- why the property asks for non-negative values: the flat branch masks a negative month entirely (every day of it
+is missing), so the hypothesis `0 ≤ y` of `m2dFlat_spec` / `m2d_spec` / `m2dSeries_spec` cannot be dropped -/
+theorem flatMonth_negative_masked (v : α) (hv : v < 0) (n : Nat) (hn : 0 < n) :
+    flatMonth 0 (some v) n = List.replicate n none := by
+  have hn' : (0 : α) < (n : α) := by exact_mod_cast hn
+  have : v / (n : α) < 0 := div_neg_of_neg_of_pos hv hn'
+  simp [flatMonth, this]
+
+example : flatMonth (0 : ℚ) (some (-31)) 31 = List.replicate 31 none :=
+  flatMonth_negative_masked (-31) (by norm_num) 31 (by norm_num)
+
+end series
+
+-- why `flathomogen_group_total` needs the group to be within the NaN allowance: beyond it the group is written
+-- all-NaN (total 0), while its non-missing inputs add up to -4
+example : flathomogen 0 ℓ₀ = .ok [none, none, none, none, none] ∧ (vals (groupOf ℓ₀ 1)).sum = -4 := by decide +kernel
 
 /-! ### non-vacuity: the hypotheses are met by concrete non-trivial inputs (evaluated over ℚ) -/
 
